@@ -158,8 +158,8 @@ def ShortOK (cfg : Cfg) (k : Skel) : EvQ → Prop
 /-- which round-3 events are covered INSIDE a task window.
     Import window: node events (extensions, reorganisations to any branch), unconfirmed transactions, crashes ANYWHERE,
     handler steps as long as no queued notification is stale; no CreateWallet / NewAddress.
-    Removal window: node events, unconfirmed transactions, crashes while no notification is pending; no handler step
-    (C08 has no follower-step theorem for a partly deleted wallet), no CreateWallet / NewAddress. -/
+    Removal window: node events, crashes while no notification is pending; no handler step (C08 has no follower-step
+    theorem for a partly deleted wallet), no unconfirmed transaction (C08's `pendOff`), no CreateWallet / NewAddress. -/
 def WindowOK (k : SkelT) : EvQ → Prop
   | .create _ => k.busy = none
   | .newAddr _ _ => k.busy = none
@@ -171,6 +171,10 @@ def WindowOK (k : SkelT) : EvQ → Prop
   | .crash =>
     match k.busy with
     | some (.rem _) => k.queue = []
+    | _ => True
+  | .recvTx _ =>
+    match k.busy with
+    | some (.rem _) => False
     | _ => True
   | _ => True
 
@@ -185,7 +189,9 @@ def StepOKT (cfg : Cfg) (G : Block) (k : SkelT) : EvT → Prop
       KeysNodup (ownOf (AMap.put k.base.ks w r)) ∧
       ∀ c ∈ k.base.hist, ChainValid (ownOf (AMap.put k.base.ks w r)) c
   | .importStep w => k.busy = some (.imp w)
-  | .removeMark w => k.busy = none ∧ (AMap.get k.base.ks w).isSome ∧ ∃ w', w' ≠ w ∧ w' ∈ walletsOf k.base.ks
+  | .removeMark w =>
+    -- the worker is idle, the wallet exists and manages at least one address, and it is not the last wallet
+    k.busy = none ∧ (∃ r, AMap.get k.base.ks w = some r ∧ r.addrs ≠ []) ∧ ∃ w', w' ≠ w ∧ w' ∈ walletsOf k.base.ks
   | .removeStep w => k.busy = some (.rem w)
   | .importDrain w fuel => k.busy = some (.imp w) ∧ k.queue = [] ∧ k.base.chain.length + 1 ≤ fuel
   | .removeDrain w _ => k.busy = some (.rem w)
